@@ -105,23 +105,34 @@ Section Verify.
     fold_left (fun acc kv => fold_left (fun acc' sk => dict_set sk (snd kv) acc') (subkey_ids (snd kv)) acc)
               (ly_keys l) [].
 
-  (** the key a link named after [link_keyid] is verified with, if that key id is authorised *)
-  Definition verification_key (l : layout) (mk : list (str * json)) (s : step) (link_keyid : str) : option json :=
-    (fix go (auth : list str) : option json :=
+  (** the key a link named after [link_keyid] is verified with, if that key id is authorised,
+      and the main key id the link is counted for.  An individually authorised subkey is
+      verified with the subkey entry alone (not its main key, not its siblings) but counts
+      for its main key. *)
+  Definition subkey_entry (m : json) (kid : str) : option json :=
+    match jget S_subkeys m with
+    | Some (JDict subs) => lookup kid subs
+    | _ => None
+    end.
+
+  Definition verification_key (l : layout) (mk : list (str * json)) (s : step) (link_keyid : str)
+    : option (res (json * json)) :=
+    (fix go (auth : list str) : option (res (json * json)) :=
        match auth with
        | [] => None
        | a :: auth' =>
            let ak := match lookup a (ly_keys l) with Some k => if jtruthy k then Some k else None | None => None end in
            let mk' := match lookup a mk with Some k => if jtruthy k then Some k else None | None => None end in
+           let via_main m := match subkey_entry m a, jget S_keyid m with
+                             | Some sk, Some mid => Some (Ok (sk, mid))
+                             | _, _ => Some (Err EKeyError)
+                             end in
+           let own k := match jget S_keyid k with Some kid => Some (Ok (k, kid)) | None => Some (Err EKeyError) end in
            match ak with
-           | Some k => if eqs link_keyid a then Some k
-                       else match mk' with
-                            | Some m => if eqs link_keyid a then Some m
-                                        else if mem_str link_keyid (subkey_ids k) then Some k else go auth'
-                            | None => if mem_str link_keyid (subkey_ids k) then Some k else go auth'
-                            end
+           | Some k => if eqs link_keyid a then own k
+                       else if mem_str link_keyid (subkey_ids k) then own k else go auth'
            | None => match mk' with
-                     | Some m => if eqs link_keyid a then Some m else go auth'
+                     | Some m => if eqs link_keyid a then via_main m else go auth'
                      | None => go auth'
                      end
            end
@@ -143,16 +154,17 @@ Section Verify.
     | (kid, md) :: found' =>
         match verification_key l mk s kid with
         | None => verify_step_links l mk s found' used acc
-        | Some vk =>
+        | Some (Err e) => Err e
+        | Some (Ok (vk, mainid)) =>
             match vsig md vk with
             | Err ESignature | Err EKeyExpired => verify_step_links l mk s found' used acc
             | Err e => Err e
             | Ok _ =>
                 do same <- names_step md s;
                 if negb same then verify_step_links l mk s found' used acc else
-                match jstr_of (jget S_keyid vk) with
-                | Some mkid => verify_step_links l mk s found' (used ++ [mkid]) (dict_set kid md acc)
-                | None => Err EUnmodelled
+                match mainid with
+                | JStr mkid => verify_step_links l mk s found' (used ++ [mkid]) (dict_set kid md acc)
+                | _ => Err EUnmodelled
                 end
             end
         end
